@@ -6,6 +6,7 @@ import (
 	"bufio"
 	"encoding/json"
 	"fmt"
+	"go/types"
 	"os"
 	"path/filepath"
 	"sort"
@@ -254,6 +255,7 @@ func (e *Engine) checkProperty(prop, tier, verif string, t0 time.Time) int {
 		"claimed_obligation_names":  len(claims),
 		"claimed_missing":        missing,
 		"solver_wins":            run.Stats.Wins,
+		"discharged_by_cache":    countCache(run),
 		"solver_seconds":         run.Stats.Seconds,
 		"samples":                samples,
 		"unverified":             unverified,
@@ -359,7 +361,7 @@ func (e *Engine) writeReplay(dir, prop string, o *Obligation, all []*Obligation)
 	}
 	fmt.Fprintf(&b, "path (basic blocks): %v\n", o.Path)
 	reproduced := false
-	if o.Result.Status == "sat" {
+	{
 		rp, ok, log := e.tryReplay(base, prop, o)
 		fmt.Fprintf(&b, "\n--- replay ---\n%s\n", log)
 		if ok {
@@ -384,6 +386,32 @@ func (e *Engine) trustedBase(run *Run) ([]string, []string) {
 		if fc.NoBody {
 			trusted = append(trusted, "assumed contract: "+k+" ("+filepath.Base(fc.File)+")")
 		}
+	}
+	for _, k := range e.ct.sortedFuncKeys() {
+		fc := e.ct.Funcs[k]
+		for _, cl := range fc.Ensures {
+			if strings.HasPrefix(cl.Label, "def-") {
+				trusted = append(trusted, "definitional clause (not proved) of "+k+": "+truncate(cl.Src, 200))
+			}
+		}
+		for _, cl := range fc.Assumes {
+			trusted = append(trusted, "assume (entry) in "+k+": "+truncate(cl.Src, 200))
+		}
+		for _, cl := range fc.AssumesAcq {
+			trusted = append(trusted, "assume (at lock acquisition) in "+k+": "+truncate(cl.Src, 200))
+		}
+		for _, ab := range fc.Ats {
+			for _, cl := range ab.Assumes {
+				trusted = append(trusted, fmt.Sprintf("assume (result of call %s #%d) in %s: %s", ab.Callee, ab.Ordinal, k, truncate(cl.Src, 200)))
+			}
+		}
+		if fc.StartLoop > 0 {
+			trusted = append(trusted, fmt.Sprintf("%s verified from loop #%d on only (prefix skipped; the loop invariant is assumed at its first entry)", k, fc.StartLoop))
+		}
+	}
+	trusted = append(trusted, e.ifaceCoverage()...)
+	for _, re := range e.ct.InlineRe {
+		trusted = append(trusted, "inlined by pattern (body is the contract): "+re.String())
 	}
 	for _, l := range e.ct.Lemmas {
 		if l.Axiom {
@@ -448,4 +476,83 @@ func (e *Engine) proveLemmasNames(run *Run, prop string) {
 		}
 		run.Lemmas = append(run.Lemmas, &Obligation{Name: "lemma#" + l.Name, Kind: "lemma", Clause: l.Clause, Props: l.Clause.Props, Static: true, StaticOK: true})
 	}
+}
+
+func countCache(run *Run) int {
+	n := 0
+	for _, o := range run.allObs() {
+		if o.Result.Solver == "cache" {
+			n++
+		}
+	}
+	return n
+}
+
+// ifaceCoverage: for every interface contract with an ensures clause, which repo implementations
+// carry a contract of their own (and are therefore checked) and which are merely assumed to comply.
+func (e *Engine) ifaceCoverage() []string {
+	var out []string
+	for _, k := range e.ct.sortedFuncKeys() {
+		fc := e.ct.Funcs[k]
+		if !fc.IsIface || len(fc.Ensures) == 0 {
+			continue
+		}
+		name := strings.TrimPrefix(k, "iface:")
+		i := strings.LastIndex(name, ".")
+		if i < 0 {
+			continue
+		}
+		ifaceName, method := name[:i], name[i+1:]
+		t, err := e.resolveType(ifaceName, "")
+		if err != nil {
+			continue
+		}
+		it, ok := t.Underlying().(*types.Interface)
+		if !ok {
+			continue
+		}
+		var with, without []string
+		for path, p := range e.pkgByPath {
+			if !strings.HasPrefix(path, modulePath) || p.Types == nil {
+				continue
+			}
+			sc := p.Types.Scope()
+			for _, n := range sc.Names() {
+				tn, ok := sc.Lookup(n).(*types.TypeName)
+				if !ok {
+					continue
+				}
+				nt, ok := tn.Type().(*types.Named)
+				if !ok || nt.TypeParams().Len() > 0 {
+					continue
+				}
+				if _, isIface := nt.Underlying().(*types.Interface); isIface {
+					continue
+				}
+				var recv string
+				switch {
+				case types.Implements(nt, it):
+					recv = "(" + n + ")"
+				case types.Implements(types.NewPointer(nt), it):
+					recv = "(*" + n + ")"
+				default:
+					continue
+				}
+				key := relPkg(path) + "." + recv + "." + method
+				alt := relPkg(path) + ".(" + n + ")." + method
+				if e.ct.Funcs[key] != nil || e.ct.Funcs[alt] != nil {
+					with = append(with, relPkg(path)+"."+n)
+				} else {
+					without = append(without, relPkg(path)+"."+n)
+				}
+			}
+		}
+		sort.Strings(with)
+		sort.Strings(without)
+		if len(without) > 12 {
+			without = append(without[:12], fmt.Sprintf("… %d more", len(without)-12))
+		}
+		out = append(out, fmt.Sprintf("interface contract %s: implementations under contract %v; assumed for %v and every implementation outside the repository", name, with, without))
+	}
+	return out
 }
